@@ -60,6 +60,12 @@ ASSUMPTIONS = [
     'the primitives of Model/PrimsLedger.v (objects as attribute lists; ast.Select/Match/Column/Constant build the '
     'object with the dataclass fields, which are compared with the imported classes) are trusted; the compiled FROM '
     'expression is an opaque callable (where_ok); the template text itself is tied by Gen/Templates.v',
+    'tie by translation of has_account (C14_source_has_account, Gen/SrcHasAccount.v, bld-env2): the regular-expression engine '
+    '(does the pattern compile; is it found in a string when compiled with re.IGNORECASE) and getters.get_entry_accounts are '
+    'universally quantified parameters of the theorem; trusted encodings (Model/PrimsHasAccount.v): compiled pattern / bound '
+    'method `search` as tagged tuples carrying the flags (only flags = re.IGNORECASE has a meaning), a Match is truthy, '
+    'any(generator) is "some item of the list is truthy" (search is pure and total on strings), the row context is an '
+    'object whose attribute `entry` is the entry',
 ]
 
 # --------------------------------------------------------------------------
@@ -313,6 +319,7 @@ def generate():
     # transform_balances / transform_journal (py2mini; statement ranges selected by structure in src_ledger.py)
     from . import gen_src
     out.update(gen_src.generate('ledger_print'))
+    out.update(gen_src.generate('hasaccount'))      # bld-env2: has_account(context, pattern) -> Gen/SrcHasAccount.v
     return out
 
 
